@@ -8,6 +8,10 @@ import (
 
 func TestWorld(t *testing.T) {
 	simkit.Main(t, "RW", map[string]simkit.PropertyFn{
+		"C22": runC22,
 		"C23": runC23,
+		"C24": runC24,
+		"C25": runC25,
+		"C26": runC26,
 	})
 }
